@@ -362,6 +362,7 @@ impl SessionEngine {
     requires
         !(frame is Acquisition),    // ASSUMED: links never queue the (unimplemented) transactional acquisition marker; the arm is `unreachable!`
     ensures
+        r is Ok ==> (r->Ok_0 is Stop <==> final(self).session.st is Unmapped),       // [C13.engine.stops-exactly-when-unmapped] the session's engine task goes on while the session is in any state but Unmapped and ends when it is: it neither ends under a session that still owes its End, nor keeps serving a channel that has been given back
         final(self).incoming == old(self).incoming, final(self).session.stop == old(self).session.stop,
         !(old(self).session.st is Mapped || old(self).session.st is EndReceived) ==> r is Err && final(self).outgoing.sent@ == old(self).outgoing.sent@,   // [C13.session.no-link-frame-unless-mapped] once an End has been sent (EndSent / Discarding / Unmapped) or before the session is mapped, no link frame is put on the channel
         final(self).session.st == old(self).session.st && final(self).session.ch == old(self).session.ch && final(self).session.stop == old(self).session.stop,
@@ -384,6 +385,7 @@ impl SessionEngine {
     requires
         forall|i: int| 0 <= i < old(self).outgoing_link_frames.queue@.len() ==> !((#[trigger] old(self).outgoing_link_frames.queue@[i]) is Acquisition),
     ensures
+        r is Ok ==> (r->Ok_0 is Stop <==> final(self).session.st is Unmapped),       // [C13.engine.stops-exactly-when-unmapped] the session's engine task goes on while the session is in any state but Unmapped and ends when it is: it neither ends under a session that still owes its End, nor keeps serving a channel that has been given back
         // peer-initiated end, connection still there
         incoming.body is End && (old(self).session.st is Mapped || old(self).session.st is BeginSent || old(self).session.st is BeginReceived)
             && final(self).outgoing.failures@ == old(self).outgoing.failures@ ==> ({
@@ -514,6 +516,7 @@ impl SessionEngine {
     requires
         forall|i: int| 0 <= i < old(self).outgoing_link_frames.queue@.len() ==> !((#[trigger] old(self).outgoing_link_frames.queue@[i]) is Acquisition),
     ensures
+        r is Ok ==> (r->Ok_0 is Stop <==> final(self).session.st is Unmapped),       // [C13.engine.stops-exactly-when-unmapped] the session's engine task goes on while the session is in any state but Unmapped and ends when it is: it neither ends under a session that still owes its End, nor keeps serving a channel that has been given back
         // the application ends the session
         control is End && old(self).session.st is Mapped && final(self).outgoing.failures@ == old(self).outgoing.failures@ ==> ({
             let s0 = old(self).outgoing.sent@;
